@@ -23,6 +23,7 @@ Import ListNotations.
 
 Section WithVoters.
 Variable vs : list N.     (* the voters (static membership) *)
+Variable vo : list N.     (* the outgoing voters when the static configuration is joint, [] otherwise *)
 
 Record vrec := mkV {
   vr_voter : N; vr_term : N; vr_cand : N;
@@ -53,7 +54,23 @@ Definition voted_for (s : sstate) (t c v : N) : bool :=
 Definition acked (s : sstate) (t : N) (i : nat) (q : N) : bool :=
   existsb (fun a => match a with (n, t', k) => N.eqb n q && N.eqb t' t && Nat.ltb i k end) (acks s).
 
-Definition majority (f : N -> bool) : Prop := (2 * length (filter f vs) > length vs)%nat.
+Definition maj1 (l : list N) (f : N -> bool) : Prop := (2 * length (filter f l) > length l)%nat.
+Definition maj1b (l : list N) (f : N -> bool) : bool := Nat.ltb (length l) (2 * length (filter f l)).
+(* a quorum: a strict majority of the voters and, in a joint configuration, of the outgoing voters
+   too (stated as a boolean equation so that it stays one atom for the proofs below; majority_spec
+   says what it means) *)
+Definition majority (f : N -> bool) : Prop :=
+  maj1b vs f && (match vo with [] => true | _ => maj1b vo f end) = true.
+
+Lemma maj1b_spec l f : maj1b l f = true <-> maj1 l f.
+Proof. unfold maj1b, maj1. rewrite Nat.ltb_lt. lia. Qed.
+
+Lemma majority_spec f : majority f <-> maj1 vs f /\ (vo = [] \/ maj1 vo f).
+Proof.
+  unfold majority. rewrite andb_true_iff, maj1b_spec. split; intros [A B]; (split; [exact A|]).
+  - destruct vo; [left; reflexivity|right; apply maj1b_spec; exact B].
+  - destruct vo; [reflexivity|]. destruct B as [B|B]; [discriminate|apply maj1b_spec; exact B].
+Qed.
 
 Definition updN {A} (f : N -> A) (k : N) (v : A) : N -> A := fun k' => if N.eqb k' k then v else f k'.
 
@@ -330,18 +347,24 @@ Proof. unfold updN. intros H. destruct (N.eqb_spec k' k); [contradiction|reflexi
 Lemma updN_ge (f : N -> N) k v n : (f k <= v)%N -> (f n <= updN f k v n)%N.
 Proof. unfold updN. intros H. destruct (N.eqb_spec n k); [subst; exact H|lia]. Qed.
 
-Lemma majority_mono (f g : N -> bool) : (forall x, f x = true -> g x = true) -> majority f -> majority g.
+Lemma maj1_mono l (f g : N -> bool) : (forall x, f x = true -> g x = true) -> maj1 l f -> maj1 l g.
 Proof.
-  unfold majority. intros H M.
-  assert (LE : (length (filter f vs) <= length (filter g vs))%nat).
-  { clear M. induction vs as [|x l IH]; cbn; [lia|].
+  unfold maj1. intros H M.
+  assert (LE : (length (filter f l) <= length (filter g l))%nat).
+  { clear M. induction l as [|x l IH]; cbn; [lia|].
     destruct (f x) eqn:F; [rewrite (H _ F); cbn; lia|destruct (g x); cbn; lia]. }
   lia.
 Qed.
 
+Lemma majority_mono (f g : N -> bool) : (forall x, f x = true -> g x = true) -> majority f -> majority g.
+Proof.
+  rewrite !majority_spec. intros H [M1 M2]. split; [eapply maj1_mono; eassumption|].
+  destruct M2 as [M2|M2]; [left; exact M2|right; eapply maj1_mono; eassumption].
+Qed.
+
 Lemma majority_meet (f g : N -> bool) : majority f -> majority g -> exists q, f q = true /\ g q = true.
 Proof.
-  unfold majority. intros F G.
+  rewrite !majority_spec. unfold maj1. intros [F _] [G _].
   destruct (QuorumProofs.majorities_intersect f g vs F G) as [q [_ [A B]]]. exists q. auto.
 Qed.
 
